@@ -55,6 +55,7 @@ TABLE = {
  "a global declaration in any enclosing function is honoured by nested functions": ("C03", "x = 'M'; def f(): def g(): global x; x = 'G2'; def h(): def k(): return x ... ; x = 'A1' in f: k (two levels below the global declaration) raised NameError / saw f's local instead of the global x (C03 thorough, scope depth 4)"),
  "an error in the truth test of a trigger expression no longer ends the legacy trigger": ("C18", "legacy subsystem: @state_trigger('Boom(int(pyscript.go))') (also an event filter and a @state_active expression) where Boom(0).__bool__ raises ValueError: one message on custom_components.pyscript.trigger instead of the script's logger, and the trigger function never ran again"),
  "scripts reloaded because they import a reloaded module are started again": ("C10", "a.py imports modules/m1.py and has an @event_trigger and a @service; pyscript.reload(global_ctx='modules.m1'): file.a was re-executed but left unstarted - its trigger never ran again and (default subsystem) its service was gone until the next general reload"),
+ "a changed global option reloads all scripts on the first reload after start-up too": ("C10", "allow_all_imports toggled in the yaml configuration, then the first pyscript.reload after start-up: only files that had changed themselves were reloaded (nothing, if none had); the documented reload of all scripts only happened from the second reload on"),
 }
 log = subprocess.run(["git", "-C", "/repo", "log", "--reverse", "--format=%h %s"], capture_output=True, text=True).stdout.strip().split("\n")
 fixed = []
